@@ -122,7 +122,7 @@ def _after_edits(rng, case, res, history=None):
         for _ in range(rng.randint(1, 5)):
             h0.append(['add_assoc', rng.randrange(64), [['live', rng.randrange(64)], ['live', rng.randrange(64)]],
                        [['live', rng.randrange(64)], ['live', rng.randrange(64)]][:rng.randint(1, 2)]])
-        h1 = gen_history(rng, lang, rng.randint(1, 8), invalid=0.0, attackers=False, names=['y', 'z', None])
+        h1 = gen_history(rng, lang, rng.randint(1, 8), invalid=0.0, attackers=False, names=['y', 'z', None]) if rng.random() < 0.5 else []
         for _ in range(rng.randint(1, 4)):
             h1.insert(rng.randrange(len(h1) + 1), ['remove_from_assoc', ['live', rng.randrange(64)], ['live', rng.randrange(64)]])
         history = [h0, h1]
@@ -274,7 +274,7 @@ def run(rng, res, tier, shard, nshards):
             from .C11 import hostile_attackers
             case = hostile_attackers(rng, case)       # overlapping entry points, steps the asset type does not have
             res.count('class:hostile-attackers')
-        if case['source'] == 'generated' and rng.random() < 0.25:
+        if case['source'] == 'generated' and rng.random() < 0.4:
             first = after_edits(rng, case, res)
             res.case(digest([case['spec'], 'edits', res.evaluations]))
             if first:
